@@ -6,14 +6,14 @@ CONSTANTS
   MirrorDropsEmpty = FALSE
   AppVals = {1, 2}
   MaxApp = 2
-  MaxRemote = 1
-  MaxIter = 1
+  MaxRemote = 2
+  MaxIter = 2
   RetryCount = 2
   MaxCrash = 1
   AllowWindow = FALSE
   StartStates = {"empty", "data", "ownsnap", "data+ownsnap"}
-  OtherAtStart = {TRUE, FALSE}
-  MaxForce = 0
+  OtherAtStart = {FALSE}
+  MaxForce = 1
   OnlyOnce = FALSE
 SPECIFICATION Spec
 INVARIANTS TypeOK NoLocalLoss PublishedWhenIdle ReadyMeansLoaded ReadyMeansPublished ExitOnlyWhenDone
